@@ -85,7 +85,8 @@ func StorageSeq(h *vsched.H) {
 		}
 		db.SetMaxOpenConns(1)
 		dbCtx, dbStop := context.WithCancel(context.Background())
-		defer func() { dbStop(); db.Close() }()
+		h.Cleanup(func() { db.Close() }) // also when the execution is aborted
+		defer dbStop()
 		sh, err := mocsqlite.NewSQLiteHandler(dbCtx, db, &mocsqlite.SQLiteHandlerOption{EventBulkInsertNum: 1, EventBulkInsertDur: 0, MaxLimit: mocsqlite.NoLimit})
 		if err != nil {
 			panic(err)
